@@ -7,7 +7,7 @@ E1 = {
                                  "BayesianNetwork.get_markov_blanket", "DAG.moralize", "DAG.get_ancestral_graph", "DAG.local_independencies", "DAG.minimal_dseparator"]),
     "C09": (["contracts.c09"], ["XMLBIFReader.get_edges", "BIFReader.get_edges", "NETReader.get_edges"]),
     "C10": (["contracts.c10"], ["StructureScore.score"]),
-    "C11": (["contracts.c11"], ["HillClimbSearch._legal_operations"]),
+    "C11": (["contracts.c11"], ["HillClimbSearch._legal_operations", "HillClimbSearch.estimate"]),
     "C13": (["contracts.c13"], ["DAG.do", "CausalInference.is_valid_backdoor_adjustment_set"]),
     "C14": (["contracts.c14"], ["BayesianNetwork.to_markov_model", "UndirectedGraph.is_clique"]),
     "C15": (["contracts.c15"], ["BayesianNetwork.add_edge", "BayesianNetwork.remove_node", "BayesianNetwork.copy", "MarkovNetwork.add_edge",
